@@ -1,6 +1,8 @@
 (* utils.rs: clean_input; uci.rs: parse_go_command, the dispatch loop and find_and_play_best_move
    as a state machine.  The two threads of a go meet in two parameters of the step: the expiry
-   index k of the virtual clock and the index [pick] of the send the polling loop holds when it leaves. *)
+   index k of the virtual clock.  After the search thread is joined the channel is drained, so the move played is
+   the newest one the search handed over (the last send) - defect F13 repaired: before, the polling loop could leave
+   holding an older send. *)
 From Walleye Require Export Model.Search Model.GameTime.
 Open Scope Z_scope.
 
@@ -67,8 +69,8 @@ Record session := mkSess { ss_board : BoardState; ss_table : dtable; ss_phase : 
 (* what the reader delivers: a line, or end of input *)
 Inductive input := Line (s : str) | Eof.
 
-(* the schedule of one go: clock expiry index and which send the polling loop ended up holding *)
-Record sched := mkSched { sc_k : option N; sc_pick : nat; sc_fuel : nat }.
+(* the schedule of one go: the clock's expiry index (and the fuel of the model's recursion) *)
+Record sched := mkSched { sc_k : option N; sc_fuel : nat }.
 
 Section Session.
 Variable zt : ztable.
@@ -92,7 +94,7 @@ Definition go_step (st : session) (cmds : list str) (sc : sched) : session * lis
           match get_best_move zt osort (sc_k sc) (sc_fuel sc) (ss_board st) (ss_table st) with
           | Ok (ev, _) =>
               let sends := sends_of ev in
-              match nth_error sends (Nat.min (sc_pick sc) (length sends - 1)) with
+              match nth_error sends (length sends - 1) with
               | Some b =>
                   match best_move_text b with
                   | Ok t => (mkSess b (ss_table st) Running, infos_of ev ++ [s_bestmove ++ t])
